@@ -4,6 +4,7 @@ import glob, json, os, re
 here = os.path.dirname(os.path.dirname(os.path.abspath(__file__)))
 def rd(p): return open(os.path.join(here, p), encoding='utf-8').read()
 out = [rd('design.d/_head.md').rstrip('\n'), '']
+EXTRA = {'C01': ['WRAP', 'OS'], 'C10': ['INFO']}
 props = [json.loads(l) for l in open(os.path.join(here, 'properties.jsonl')) if l.strip()]
 for p in props:
     f = 'design.d/%s.md' % p['id']
@@ -19,6 +20,12 @@ for p in props:
             else:
                 lines = ['### ' + first] + [('##' + l if re.match(r'^#{1,2} ', l) else l) for l in lines[1:]]
         out += ['\n'.join(lines), '']
+        for extra in EXTRA.get(p['id'], []):
+            ef = 'design.d/%s.md' % extra
+            if os.path.exists(os.path.join(here, ef)):
+                eb = rd(ef).strip('\n').split('\n')
+                eb = [('##' + l if re.match(r'^#{1,2} ', l) else ('#' + l if re.match(r'^### ', l) else l)) for l in eb]
+                out += ['\n'.join(eb), '']
     else:
         out += ['### %s — %s' % (p['id'], p['title']), '', '*Not built yet; listed under `not_applicable` in MANIFEST.json until its package is integrated.*', '']
 # section 7: findings
